@@ -223,12 +223,17 @@ SV_CONTRACTS = {
         "__CPROVER_loop_invariant(__CPROVER_same_object(first1, last1) && __CPROVER_loop_entry(first1) <= first1 && first1 <= last1)\n"
         "__CPROVER_loop_invariant(first2 == __CPROVER_loop_entry(first2) + (first1 - __CPROVER_loop_entry(first1)))\n"
         "__CPROVER_loop_invariant((g_k < (size_t)(first1 - __CPROVER_loop_entry(first1))) ==> __CPROVER_loop_entry(first1)[g_k] == __CPROVER_loop_entry(first2)[g_k])\n"
+        "__CPROVER_loop_invariant((0 < (size_t)(first1 - __CPROVER_loop_entry(first1))) ==> __CPROVER_loop_entry(first1)[0] == __CPROVER_loop_entry(first2)[0])\n"
+        "__CPROVER_loop_invariant((1 < (size_t)(first1 - __CPROVER_loop_entry(first1))) ==> __CPROVER_loop_entry(first1)[1] == __CPROVER_loop_entry(first2)[1])\n"
         "__CPROVER_decreases(last1 - first1)\n"}},
     SV_EQ: {"pre": sv_ok("lhs") + sv_ok("rhs") +
         "__CPROVER_assigns()\n"
         "__CPROVER_ensures(__CPROVER_return_value ==> (lhs.length_ == rhs.length_ && (g_k < lhs.length_ ==> lhs.data_[g_k] == rhs.data_[g_k])))\n"
         "__CPROVER_ensures(lhs.length_ != rhs.length_ ==> !__CPROVER_return_value)\n"
-        "__CPROVER_ensures((lhs.length_ == 0 && rhs.length_ == 0) ==> __CPROVER_return_value)\n"},
+        "__CPROVER_ensures((lhs.length_ == 0 && rhs.length_ == 0) ==> __CPROVER_return_value)\n"
+        # exact for views of at most two bytes (comparisons with short literals such as unit suffixes)
+        "__CPROVER_ensures((lhs.length_ == rhs.length_ && lhs.length_ <= 2) ==> (__CPROVER_return_value == "
+        "((lhs.length_ < 1 || lhs.data_[0] == rhs.data_[0]) && (lhs.length_ < 2 || lhs.data_[1] == rhs.data_[1]))))\n"},
 }
 
 
@@ -407,3 +412,52 @@ def sdk_trace_boundary(cfg):
         cfg.ext_methods[k] = lambda em, recv, args, n: recv
     cfg.ext_q["Sampler::ShouldSample"] = lambda em, node, recv, args: "xc_delegate_ShouldSample(%s)" % ", ".join(
         [em.expr(recv["node"] if recv.get("xc_is_ptr") else recv)] + em.call_args(em.ix.by_id.get(node["inner"][0].get("referencedMemberDecl")) or {}, args))
+
+
+# ---------------------------------------------------------------------------------------------
+# std::chrono durations as plain tick counts
+import re as _re
+
+
+def _ratio_of(tname):
+    """(num, den) of a std::chrono::duration<Rep, std::ratio<N, D>> type string"""
+    m = _re.search(r"std::ratio<\s*(\d+)\s*(?:,\s*(\d+)\s*)?>", tname)
+    if m:
+        return int(m.group(1)), int(m.group(2) or 1)
+    return 1, 1      # duration<Rep> defaults to seconds
+
+
+def _dur_type(em, base, targs, name):
+    if base == "std::chrono::duration" and targs:
+        return em._ctype(targs[0])
+    return None
+
+
+def _duration_cast(em, node, recv, args):
+    dst = node["type"].get("desugaredQualType") or node["type"]["qualType"]
+    src = args[0]["type"].get("desugaredQualType") or args[0]["type"]["qualType"]
+    dn, dd = _ratio_of(dst)
+    sn, sd = _ratio_of(src)
+    # libstdc++: count * (CF::num) / (CF::den) in the common rep with CF = src_period / dst_period
+    from math import gcd
+    num, den = sn * dd, sd * dn
+    g = gcd(num, den)
+    num, den = num // g, den // g
+    em.report["std::chrono::duration_cast turned into the integer multiplication/division it performs"] += 1
+    e = "(%s)" % em.expr(args[0])
+    if num != 1:
+        e = "(%s * %dL)" % (e, num)
+    if den != 1:
+        e = "(%s / %dL)" % (e, den)
+    return e
+
+
+def chrono_boundary(cfg):
+    cfg.type_handlers.append(_dur_type)
+    for n in ("system_clock::duration", "steady_clock::duration", "nanoseconds", "microseconds", "milliseconds", "seconds", "minutes", "hours",
+              "system_clock::duration::rep", "steady_clock::duration::rep", "system_clock::rep"):
+        cfg.type_map["std::chrono::" + n] = "long"
+    cfg.ext["duration_cast"] = _duration_cast
+    cfg.ctor_ext["std::chrono::duration"] = lambda em, node, args: (em.expr(args[0]) if args else "0")
+    cfg.ext_methods["std::chrono::duration::operator="] = lambda em, recv, args, n: "%s = %s" % (recv, em.expr(args[0]))
+    cfg.ext_methods["std::chrono::duration::count"] = lambda em, recv, args, n: recv
